@@ -2,7 +2,7 @@
    Property theorems only.  [the_table] is REGENERATED from the Go source on every check
    (Gen/GenesisTable.v); the finite theorems are by computation over it, the lifting lemmas are
    generic (Proofs/GenesisProofs.v).  On the unchanged tree the property is false for the
-   (module, prefix) pairs listed in [known_holes] (11 classes kf_C20 1..11); each class has a
+   (module, prefix) pairs listed in [known_holes] (12 classes kf_C20 1..12); each class has a
    [_refuted] statement, and the positive theorems are stated on the complement. *)
 From Coq Require Import String.
 From Comdex Require Import Lib.Base Lib.GenesisTypes Gen.GenesisTable Model.Genesis Proofs.GenesisProofs.
@@ -26,7 +26,9 @@ Print Assumptions c20_roundtrip_table_partial.
 
 (* lifted: for every module state s (any content, hence every reachable one) whose derived indexes
    are consistent with their records, InitGenesis (ExportGenesis s) has exactly the entries of s
-   under every live non-counter prefix outside the known-finding classes *)
+   under every live non-counter prefix outside the known-finding classes.  [roundtrip] is the
+   success path of InitGenesis; prefixes whose import can be cut short by a failing validating
+   setter are excluded by [survives] (class 12). *)
 Theorem c20_roundtrip_partial : forall p dv s,
   In p prefixes -> live p = true -> p_counter p = false ->
   kf_C20_any (p_mod p) (p_byte p) = false ->
@@ -34,7 +36,7 @@ Theorem c20_roundtrip_partial : forall p dv s,
   get (roundtrip dv the_table (p_mod p) s) (p_byte p) = get s (p_byte p).
 Proof.
   intros p dv s Hin Hl Hc Hk Hcons.
-  pose proof (table_decided_row p Hin Hl Hk) as Hs. unfold survives in Hs. rewrite Hc in Hs.
+  pose proof (survives_cover _ _ _ (table_decided_row p Hin Hl Hk) Hc) as Hs.
   apply roundtrip_generic; [exact (in_pref_rows the_table p Hin)|exact Hs|exact Hcons].
 Qed.
 Print Assumptions c20_roundtrip_partial.
@@ -53,7 +55,7 @@ Theorem c20_counters_partial : forall p orig items,
   ~ In (next_id orig) (ids items).
 Proof.
   intros p orig items Hin Hl Hc Hk Hmax Hle.
-  pose proof (table_decided_row p Hin Hl Hk) as Hs. unfold survives in Hs. rewrite Hc in Hs.
+  pose proof (survives_counter _ _ _ (table_decided_row p Hin Hl Hk) Hc) as Hs.
   split; [exact (counter_ok_exact _ _ _ orig items Hs Hmax)|exact (fresh_id_generic _ _ Hle)].
 Qed.
 Print Assumptions c20_counters_partial.
@@ -144,6 +146,15 @@ Theorem c20_maxid_refuted :
                      restored_value (RMax [16]) orig items <> Some orig.
 Proof. repeat split; try (vm_compute; reflexivity). apply max_restore_reissues. Qed.
 Print Assumptions c20_maxid_refuted.
+
+(* class 12: the collector lookup table is imported through a setter that can return an error, on
+   which InitGenesis returns; the auction mapping and the denoms mapping come after it *)
+Theorem c20_guarded_import_refuted :
+  at_risk the_table "collector" 1 = true /\ at_risk the_table "collector" 5 = true /\
+  at_risk the_table "collector" 7 = true /\ at_risk the_table "esm" 4 = true /\
+  at_risk the_table "locker" 21 = false /\ at_risk the_table "vault" 16 = false.
+Proof. vm_compute. repeat split. Qed.
+Print Assumptions c20_guarded_import_refuted.
 
 (* ---------------- non-vacuity ---------------- *)
 (* a locker store with two lockers, a lookup table and a user mapping round-trips on every covered
